@@ -415,6 +415,7 @@ func (f *frame) builtin(st *State, x *ssa.Call, b *ssa.Builtin, args []Value) Va
 		r.Lo = 0
 		return r.normalize()
 	case "append":
+		f.appendInPlace(st, x, args)
 		if r := f.appendSmall(st, x, args); r != nil {
 			return r
 		}
@@ -518,4 +519,74 @@ func (f *frame) appendSmall(st *State, x *ssa.Call, args []Value) Value {
 	ln := NewConstInt(64, true, total)
 	ln.IsLen = o
 	return &Slice{Obj: o, Path: "", Off: NewConstInt(64, true, 0), Len: ln, Elem: elem}
+}
+
+// appendInPlace accounts for append re-using the backing array of its first operand when that
+// slice may have spare capacity (it does not reach the end of its array, or the extent is not
+// known): the appended values may be stored right behind the slice.  The stores are weak and are
+// reported through the Store hook like any other store, so ownership rules see a write into, say,
+// a package-level table that is extended with append(table[:n], x).  The result value is still
+// modelled as a fresh array (reads through the old array see the new elements as a possibility).
+func (f *frame) appendInPlace(st *State, x *ssa.Call, args []Value) {
+	it := f.it
+	if len(args) != 2 {
+		return
+	}
+	s, ok := args[0].(*Slice)
+	if !ok || s.Obj == nil {
+		return
+	}
+	arrLen := int64(-1)
+	if at, ok := leafTypeAt(s.Obj.T, s.Path).(*types.Array); ok {
+		arrLen = at.Len()
+	} else if s.Path == "" {
+		if at, ok := s.Obj.T.Underlying().(*types.Array); ok {
+			arrLen = at.Len()
+		}
+	}
+	off, okOff := s.Off.Const()
+	ln, okLen := s.Len.Const()
+	if arrLen >= 0 && okOff && okLen && off+ln == arrLen {
+		return // the slice ends where its array ends: append must allocate
+	}
+	// values appended
+	var vals []Value
+	switch a := args[1].(type) {
+	case *NilV:
+		return
+	case *Slice:
+		if n, isc := a.Len.Const(); isc && n >= 0 && n <= 64 {
+			if n == 0 {
+				return
+			}
+			aoff, okA := a.Off.Const()
+			for i := int64(0); i < n; i++ {
+				path := a.Path + "[*]"
+				if okA {
+					path = fmt.Sprintf("%s[%d]", a.Path, aoff+i)
+				}
+				vals = append(vals, st.LoadPtr(&Ptr{Obj: a.Obj, Path: path, Elem: a.Elem}))
+			}
+		} else {
+			vals = append(vals, st.LoadPtr(&Ptr{Obj: a.Obj, Path: a.Path + "[*]", Elem: a.Elem}))
+		}
+	default:
+		return
+	}
+	for i, v := range vals {
+		path := s.Path + "[*]"
+		if okOff && okLen && arrLen >= 0 && len(vals) > 0 {
+			if k := off + ln + int64(i); k < arrLen {
+				path = fmt.Sprintf("%s[%d]", s.Path, k)
+			} else {
+				continue // beyond the array: this element cannot be stored in place
+			}
+		}
+		p := &Ptr{Obj: s.Obj, Path: path, Elem: s.Elem}
+		old := st.LoadPtr(p)
+		keys, _ := st.StorePtr(p, it.Join(old, v, nil, st.PathDeps))
+		if it.Hooks.Store != nil {
+			it.Hooks.Store(st, x, p, keys, v, false)
+		}
+	}
 }
